@@ -310,7 +310,10 @@ func (s *TxStore) insertMinedTxForImporting(tx mwdb.DBTransaction,
 		}
 		err = putBlockRecord(nsBlocks, block, &rec.Hash)
 	} else {
-		blkHash, err := readBlockHashFromValue(blockValue)
+		// (no ":=" here: err must be the one checked after this if/else, or a failed
+		// putRawBlockRecord below goes unnoticed)
+		var blkHash wire.Hash
+		blkHash, err = readBlockHashFromValue(blockValue)
 		if err != nil {
 			return err
 		}
